@@ -27,8 +27,16 @@ ARITH = ('M', 'ML', 'P')
 TOL_ULP = 64.0
 
 
-def mem_specs():
-    return [(f'mem{f}_{s}', 'mem.cpp', (f'-DFAMILY={f}', f'-DSCALAR={s}')) for f in FAMS for s in (0, 1)]
+def mem_specs(part=0):
+    """part 0: eval + dump modes; part 1: agree mode (separate translation units keep each compile short)"""
+    return [(f'mem{f}_{s}_{part}', 'mem.cpp', (f'-DFAMILY={f}', f'-DSCALAR={s}', f'-DPART={part}')) for f in FAMS for s in (0, 1)]
+
+
+def build_many(specs):
+    from concurrent.futures import ThreadPoolExecutor
+    with ThreadPoolExecutor(max_workers=max(4, (os.cpu_count() or 8))) as ex:
+        futs = {s[0]: ex.submit(vlib.build_harness, *s) for s in specs}
+        return {k: f.result() for k, f in futs.items()}
 
 
 _bins = None
@@ -38,18 +46,18 @@ def bins():
     global _bins
     if _bins is None:
         t0 = time.time()
-        _bins = vlib.build_harnesses(mem_specs())
+        _bins = build_many(mem_specs(0) + mem_specs(1))
         if time.time() - t0 > 5:
             log(f'mem harness ready in {time.time() - t0:.0f}s')
     return _bins
 
 
-def run_all(mode_args, env=None):
+def run_all(mode_args, env=None, part=0):
     out = []
     b = bins()
     from concurrent.futures import ThreadPoolExecutor
     with ThreadPoolExecutor(max_workers=8) as ex:
-        futs = [ex.submit(vlib.run_harness, b[name], mode_args, None, env) for name, _, _ in mem_specs()]
+        futs = [ex.submit(vlib.run_harness, b[name], mode_args, None, env) for name, _, _ in mem_specs(part)]
         for f in futs:
             out += f.result()
     return out
@@ -130,7 +138,7 @@ def gen_view_layout(ctx):
         dump = get_dump()
     except vlib.HarnessCompileError as e:
         return False, 'harness mem.cpp does not compile: ' + e.err[-1500:]
-    groups = sorted({g for (g, _) in dump.sizes}, key=CATALOGUE.index if all(g in CATALOGUE for (g, _) in dump.sizes) else None)
+    groups = sorted({g for (g, _) in dump.sizes}, key=lambda x: (CATALOGUE.index(x) if x in CATALOGUE else 99, x))
     obs_rows, size_rows, full_rows, notes = [], [], [], []
     for g in groups:
         d = parse(g)
@@ -156,23 +164,13 @@ def gen_view_layout(ctx):
                 continue
             if len(res) != 1 or len(next(iter(res))) != 2:
                 notes.append(f'-- {g} {op}: observed {sorted(res)}')
-                full_rows.append(f'  ({d.lean()}, 0, 0)  -- {op}')
+                full_rows.append(f'  ({d.lean()}, "{op}", 0, 0)')
             else:
                 o, ln = next(iter(res))
-                full_rows.append(f'  ({d.lean()}, {o}, {ln})  -- {op}')
+                full_rows.append(f'  ({d.lean()}, "{op}", {o}, {ln})')
 
     def block(rows):
-        # a trailing comment must not swallow the separating comma
-        out = []
-        for i, r in enumerate(rows):
-            if ' -- ' in r and i + 1 < len(rows):
-                a, b = r.split('  -- ', 1)
-                out.append(a + ',  -- ' + b)
-            elif i + 1 < len(rows):
-                out.append(r + ',')
-            else:
-                out.append(r)
-        return '\n'.join(out)
+        return ',\n'.join(rows)
     text = f'''/-
   GENERATED by tools/props/c16.py from the running implementation (harness/mem.cpp `dump`, built against the
   current /repo/include) — do not edit.  Tie T2 of property C16: the write-set actually observed for every
@@ -192,8 +190,8 @@ def observed : List (GDesc × List (Acc × Nat × Nat)) := [
 def sizes : List (GDesc × Nat × Nat × Nat) := [
 {block(size_rows)}]
 
-/-- observed write-set `(G, offset, length)` of setIdentity / coeffs()= / operator= / *= / += on a Map<G> -/
-def fullWrites : List (GDesc × Nat × Nat) := [
+/-- observed write-set `(G, mutator, offset, length)` of setIdentity / coeffs()= / operator= / *= / += on a Map<G> -/
+def fullWrites : List (GDesc × String × Nat × Nat) := [
 {block(full_rows)}]
 {chr(10).join(notes)}
 
@@ -211,7 +209,7 @@ theorem sizes_eq_model :
 
 /-- full-view mutators write exactly `[0, RepSize)` of the view -/
 theorem full_writes_eq_model :
-    fullWrites.all (fun r => r.2.1 == 0 && r.2.2 == repSize r.1) = true := by decide
+    fullWrites.all (fun r => r.2.2.1 == 0 && r.2.2.2 == repSize r.1) = true := by decide
 
 end Gen.ViewLayout
 '''
@@ -640,34 +638,49 @@ NEG_TYPES = {'SO2': ('so2.hpp', 'smooth::SO2d'), 'SO3': ('so3.hpp', 'smooth::SO3
              'SEK2': ('se_k_3.hpp', 'smooth::SE_K_3<double, 2>'), 'B[SO3,T2]': ('bundle.hpp', 'smooth::Bundle<smooth::SO3d, Eigen::Vector2d>')}
 NEG_STMTS = {'setIdentity': 'm.setIdentity();', 'setRandom': 'm.setRandom();', 'assign': 'm = G{};', 'mul': 'm *= G{};',
              'plus': 'm += G::Tangent::Zero();', 'coeffs_write': 'm.coeffs()(0) = 1;', 'data_write': '*m.data() = 1;'}
+# writes through the sub-part accessors of a const view (only for the group that has the accessor)
+NEG_SUB = {'SE2': {'so2_setIdentity': 'm.so2().setIdentity();', 'so2_assign': 'm.so2() = smooth::SO2d{};', 'r2_assign': 'm.r2() = Eigen::Vector2d::Zero();'},
+           'SE3': {'so3_assign': 'm.so3() = smooth::SO3d{};', 'r3_assign': 'm.r3() = Eigen::Vector3d::Zero();'},
+           'GAL': {'so3_assign': 'm.so3() = smooth::SO3d{};', 'r3_v_assign': 'm.r3_v() = Eigen::Vector3d::Zero();',
+                   'r3_p_assign': 'm.r3_p() = Eigen::Vector3d::Zero();', 'r1_t_assign': 'm.r1_t()(0) = 1;'},
+           'SEK2': {'so3_assign': 'm.so3() = smooth::SO3d{};', 'r3k_assign': 'm.r3<1>() = Eigen::Vector3d::Zero();',
+                    'r3rt_assign': 'm.r3(0) = Eigen::Vector3d::Zero();'},
+           'B[SO3,T2]': {'part0_assign': 'm.part<0>() = smooth::SO3d{};', 'part1_assign': 'm.part<1>() = Eigen::Vector2d::Zero();',
+                         'part0_setIdentity': 'm.part<0>().setIdentity();'}}
 
 
 def neg_compile(groups, stmts):
-    """each statement through a Map<const G> must be rejected by the compiler; the same TU without it must compile"""
+    """each mutating statement through a Map<const G> must be rejected by the compiler, while the same statement
+    through a Map<G> compiles (positive control: the rejection is due to constness, not to a typo or missing header)"""
     jobs = []
     d = os.path.join(vlib.BUILD, 'neg16')
     os.makedirs(d, exist_ok=True)
     vlib.gen_version_header()
     inc = ['-I' + os.path.join(vlib.REPO, 'include'), '-I' + os.path.join(vlib.BUILD, 'gen'), '-I/usr/include/eigen3']
+    k = 0
     for g in groups:
         hdr, ty = NEG_TYPES[g]
         extra = '#include <smooth/so3.hpp>\n' if hdr == 'bundle.hpp' else ''
-        for name in [None] + list(stmts):
-            src = (f'#include <smooth/{hdr}>\n{extra}int main(){{ using G = {ty}; double buf[32] = {{0}}; '
-                   f'smooth::Map<const G> m(buf + 1); {NEG_STMTS[name] if name else ""} return int(m.coeffs()(0)); }}\n')
-            p = os.path.join(d, f'neg_{abs(hash((g, name))) % 10**8}.cpp')
-            open(p, 'w').write(src)
-            jobs.append((g, name, p, ['g++', '-std=c++20', '-fsyntax-only', '-w'] + inc + [p]))
+        allst = dict(NEG_STMTS)
+        allst.update(NEG_SUB.get(g, {}))
+        for name in [n for n in allst if n in stmts or n in NEG_SUB.get(g, {})]:
+            for const in (True, False):
+                src = (f'#include <smooth/{hdr}>\n{extra}int main(){{ using G = {ty}; double buf[32] = {{0}}; '
+                       f'smooth::Map<{"const " if const else ""}G> m(buf + 1); {allst[name]} return int(m.coeffs()(0)); }}\n')
+                k += 1
+                p = os.path.join(d, f'neg_{os.getpid()}_{k}.cpp')
+                open(p, 'w').write(src)
+                jobs.append((g, name, const, p, ['g++', '-std=c++20', '-fsyntax-only', '-w'] + inc + [p]))
     from concurrent.futures import ThreadPoolExecutor
 
     def run(j):
-        r = subprocess.run(j[3], capture_output=True, text=True)
+        r = subprocess.run(j[4], capture_output=True, text=True)
         try:
-            os.remove(j[2])
+            os.remove(j[3])
         except OSError:
             pass
-        return j[0], j[1], r.returncode, r.stderr[-300:]
-    with ThreadPoolExecutor(max_workers=8) as ex:
+        return j[0], j[1], j[2], r.returncode, r.stderr[-300:]
+    with ThreadPoolExecutor(max_workers=max(4, os.cpu_count() or 8)) as ex:
         return list(ex.map(run, jobs))
 
 
@@ -735,7 +748,7 @@ class C16:
         check_casts(creqs, stats, findings, samples)
         # ---- value-vs-Map agreement of every LieGroupBase operation
         agree = {'comparisons': 0, 'ops': 0, 'nonzero_ulp': [], 'worst_ulp': 0.0}
-        for l in run_all(['agree', str((6 if quick else 60) * budget)], env={'VERIF_SEED': str(ctx['seed'])}):
+        for l in run_all(['agree', str((6 if quick else 60) * budget)], env={'VERIF_SEED': str(ctx['seed'])}, part=1):
             t = l.split()
             if t[0] != 'agree':
                 continue
@@ -749,17 +762,17 @@ class C16:
                     findings.append({'property': 'C16', 'key': {'kind': 'value_vs_map', 'group': g, 'prec': prec, 'op': op}, 'err': worst, 'tol': 4,
                                      'what': f'{op} through {first} differs from the value object by {worst} ulp', 'line': l})
         # ---- negative compile tests: mutators on Map<const G> are rejected by the compiler
-        ngroups = ['SE2', 'SO3', 'B[SO3,T2]'] if quick else list(NEG_TYPES)
+        ngroups = ['SE2', 'SEK2', 'B[SO3,T2]'] if quick else list(NEG_TYPES)
         nstm = ['setIdentity', 'setRandom', 'assign'] if quick else list(NEG_STMTS)
         neg = neg_compile(ngroups, nstm)
         neg_ok = 0
-        for g, name, rc, err in neg:
-            if name is None:
+        for g, name, const, rc, err in neg:
+            if not const:
                 if rc != 0:
-                    raise vlib.MachineryError(f'negative-compile baseline for {g} does not compile: {err}')
+                    raise vlib.MachineryError(f'negative-compile positive control `{name}` on Map<{g}> does not compile: {err}')
             elif rc == 0:
                 findings.append({'property': 'C16', 'key': {'kind': 'const_mutator_compiles', 'group': g, 'member': name}, 'err': 1, 'tol': 0,
-                                 'what': f'`{NEG_STMTS[name]}` on a Map<const {g}> compiles', 'line': f'neg {g} {name}'})
+                                 'what': f'`{name}` through a Map<const {g}> compiles', 'line': f'neg {g} {name}'})
             else:
                 neg_ok += 1
         cov = {'evaluations': stats['ops'] + stats['casts'] + agree['comparisons'], 'distinct_nontrivial': len(kinds),
